@@ -226,14 +226,27 @@ def inline_locals(f: FuncInfo, e: ast.expr, depth: int = 5, unpack: bool = False
         for k, v in (binds.items() if unpack else ()):
             if len(v) == 1 and isinstance(v[0], ast.Assign) and len(v[0].targets) == 1 and isinstance(v[0].targets[0], (ast.Tuple, ast.List)) and k not in f.all_params and k not in single:
                 tg = v[0].targets[0]
-                if all(isinstance(e_, ast.Name) for e_ in tg.elts):
-                    pos = [e_.id for e_ in tg.elts].index(k)
-                    val = v[0].value
-                    if isinstance(val, (ast.Tuple, ast.List)) and len(val.elts) == len(tg.elts) and not any(isinstance(e_, ast.Starred) for e_ in val.elts):
-                        item = val.elts[pos]
-                    else:
-                        item = ast.copy_location(ast.Subscript(value=val, slice=ast.Constant(value=pos), ctx=ast.Load()), val)
+
+                def path_to(t, name):
+                    """positions leading to `name` inside a (possibly nested) tuple target, None if it is not there / a starred target is in the way"""
+                    if isinstance(t, ast.Name):
+                        return [] if t.id == name else None
+                    if isinstance(t, (ast.Tuple, ast.List)) and not any(isinstance(x, ast.Starred) for x in t.elts):
+                        for i_, x in enumerate(t.elts):
+                            pth = path_to(x, name)
+                            if pth is not None:
+                                return [(i_, len(t.elts))] + pth
+                    return None
+                pth = path_to(tg, k)
+                if pth:
+                    item = v[0].value
+                    for pos, n_ in pth:
+                        if isinstance(item, (ast.Tuple, ast.List)) and len(item.elts) == n_ and not any(isinstance(e_, ast.Starred) for e_ in item.elts):
+                            item = item.elts[pos]
+                        else:
+                            item = ast.copy_location(ast.Subscript(value=item, slice=ast.Constant(value=pos), ctx=ast.Load()), v[0].value)
                     syn = ast.copy_location(ast.Assign(targets=[ast.Name(id=k, ctx=ast.Store())], value=item), v[0])
+                    syn._orig = v[0]   # (its place in the statement order is that of the unpacking statement)
                     single[k] = syn
                     binds[k] = [syn]
         loops = [n for n in f.body_nodes() if isinstance(n, (ast.For, ast.While))]
@@ -273,12 +286,12 @@ def inline_locals(f: FuncInfo, e: ast.expr, depth: int = 5, unpack: bool = False
                 # the object itself is read (passed on, indexed): any attribute store into it may matter
                 reads.add(n.id)
                 reads.update(k for k in binds if k.startswith(n.id + "."))
-        pa, pu = order.get(id(a)), order.get(id(e))
+        pa, pu = order.get(id(getattr(a, "_orig", a))), order.get(id(e))
         for y in reads:
             for b in binds.get(y, ()):
                 if b is a:
                     continue
-                pb = order.get(id(b))
+                pb = order.get(id(getattr(b, "_orig", b)))
                 if pa is not None and pu is not None and pb is not None:
                     # statement order (pre-order position in the function): also orders statements that share a line, e.g. the spliced body of an inlined helper
                     def common_loop(p1, p2):
@@ -311,6 +324,14 @@ def inline_locals(f: FuncInfo, e: ast.expr, depth: int = 5, unpack: bool = False
         def visit_Name(self, n):
             if isinstance(n.ctx, ast.Load) and n.id in single and self.d > 0 and fresh(n.id):
                 return T(self.d - 1).visit(copy.deepcopy(single[n.id].value))   # (names inside keep the positions of the binding statement)
+            return n
+
+        def visit_Subscript(self, n):
+            n = self.generic_visit(n)
+            # (p, q)[0] is p: an element of a tuple display that a temporary stood for
+            if unpack and isinstance(n.value, (ast.Tuple, ast.List)) and isinstance(n.slice, ast.Constant) and isinstance(n.slice.value, int) and not isinstance(n.slice.value, bool) \
+                    and 0 <= n.slice.value < len(n.value.elts) and not any(isinstance(x, ast.Starred) for x in n.value.elts):
+                return n.value.elts[n.slice.value]
             return n
     return T(depth).visit(copy.deepcopy(e))
 
